@@ -14,4 +14,4 @@ NOT_APPLICABLE = {
 import json, glob, os
 TEXT = {}
 for f in sorted(glob.glob(os.path.join(os.path.dirname(os.path.abspath(__file__)), "cfg", "C*.json"))):
-    TEXT[os.path.basename(f)[:-5]] = json.load(open(f))["manifest"]
+    TEXT[os.path.basename(f)[:-5]] = json.load(open(f)).get("manifest", {"text": "", "note": "", "technique": ""})
